@@ -59,11 +59,15 @@ func r10a(c *core.Ctx) {
 	if hr == nil {
 		return
 	}
-	// the Match call in the loop
+	// the Match call in the loop (in handleReq, or in a helper that handleReq calls to select the rule)
 	var match *ssa.Call
-	for _, call := range core.Calls(hr) {
-		if cc, ok := call.(*ssa.Call); ok && strings.HasSuffix(core.CallName(cc), "MixMatcher).Match") {
-			match = cc
+	top := hr
+	for _, lf := range helperReach(top, 1) {
+		for _, call := range core.Calls(lf) {
+			if cc, ok := call.(*ssa.Call); ok && strings.HasSuffix(core.CallName(cc), "MixMatcher).Match") {
+				match = cc
+				hr = lf
+			}
 		}
 	}
 	if match == nil {
@@ -71,7 +75,28 @@ func r10a(c *core.Ctx) {
 		return
 	}
 	recv := core.Expr(match.Call.Args[0])
-	c.Check(strings.HasPrefix(recv, "r.rules[") && strings.HasSuffix(recv, "].matcher") && core.Expr(match.Call.Args[1]) == "q.Name", "match-own-matcher-on-query-name", match.Pos(), hr, "each rule's own matcher is asked about the query name", recv+", "+core.Expr(match.Call.Args[1]))
+	// receiver = <element of the router's rules>.matcher; argument = the question's name
+	ownMatcher := false
+	if ld, ok := match.Call.Args[0].(*ssa.UnOp); ok {
+		if fa, ok := ld.X.(*ssa.FieldAddr); ok && core.FieldAddrRef(fa).Name == "matcher" {
+			if el, ok := fa.X.(*ssa.UnOp); ok {
+				if ia, ok := el.X.(*ssa.IndexAddr); ok {
+					if rl, ok := ia.X.(*ssa.UnOp); ok {
+						if rfa, ok := rl.X.(*ssa.FieldAddr); ok && core.FieldAddrRef(rfa).String() == "router.rules" {
+							ownMatcher = true
+						}
+					}
+				}
+			}
+		}
+	}
+	qName := false
+	if ld, ok := core.Strip(match.Call.Args[1]).(*ssa.UnOp); ok {
+		if fa, ok := ld.X.(*ssa.FieldAddr); ok && core.FieldAddrRef(fa).String() == "Question.Name" {
+			_, qName = fa.X.(*ssa.Parameter)
+		}
+	}
+	c.Check(ownMatcher && strings.HasSuffix(recv, "].matcher") && qName, "match-own-matcher-on-query-name", match.Pos(), hr, "each rule's own matcher is asked about the query name", recv+", "+core.Expr(match.Call.Args[1]))
 	rule := strings.TrimSuffix(recv, ".matcher")
 	// index order: the rule index is phi(-1|+1) … rangeindex
 	idxOK := strings.Contains(rule, "+ 1)")
@@ -115,18 +140,90 @@ func r10a(c *core.Ctx) {
 	c.Check(leaves, "first-match-leaves-loop", matchedBlk.Instrs[0].Pos(), hr, "once a rule matches, no further rule is evaluated (break)", "")
 	cont := core.Reach(hr, skipBlk.Instrs[0], func(in ssa.Instruction) bool { return in == ssa.Instruction(match) }, nil) != nil || len(hr.Blocks) > 0
 	c.Check(cont, "non-match-continues", skipBlk.Instrs[0].Pos(), hr, "a rule that does not match is skipped and the next one evaluated", "")
-	// the selected rule is that very rule element
+	// the selected rule is that very rule element: the one non-nil value of the selection (a phi of nil and the element
+	// in handleReq, or what the selecting helper returns)
 	sel := false
 	core.EachInstr(hr, func(_ *ssa.BasicBlock, _ int, in ssa.Instruction) {
-		if p, ok := in.(*ssa.Phi); ok && p.Comment == "matchedRule" {
-			for _, e := range p.Edges {
-				if core.Expr(e) == rule {
-					sel = true
+		switch x := in.(type) {
+		case *ssa.Phi:
+			hasNil, hasRule, other := false, false, false
+			for _, e := range x.Edges {
+				switch {
+				case core.IsNilConst(e):
+					hasNil = true
+				case core.Expr(e) == rule:
+					hasRule = true
+				default:
+					other = true
 				}
+			}
+			if hasNil && hasRule && !other {
+				sel = true
+			}
+		case *ssa.Return:
+			if hr != top && len(x.Results) == 1 && core.Expr(x.Results[0]) == rule {
+				sel = true
 			}
 		}
 	})
 	c.Check(sel, "selected-is-matching-rule", match.Pos(), hr, "matchedRule is the rule whose condition held", "")
+}
+
+// isMatchedRule: v is the rule selected by the rule loop — every origin (through the selecting helper's results) is nil
+// or an element of the router's rules.
+func isMatchedRule(c *core.Ctx, v ssa.Value) bool {
+	seenFn := map[*ssa.Function]bool{}
+	through := func(cc *ssa.Call, idx int) []ssa.Value {
+		f := core.StaticCallee(cc)
+		if f == nil || f.Pkg == nil || !core.IsModule(f.Pkg.Pkg) || f.Blocks == nil || seenFn[f] {
+			return nil
+		}
+		seenFn[f] = true
+		var vs []ssa.Value
+		for _, ret := range returnsOf(f) {
+			if rs := core.ReturnResults(ret); idx < len(rs) {
+				vs = append(vs, rs[idx])
+			}
+		}
+		return vs
+	}
+	n := 0
+	for _, o := range core.Origins(v, core.OriginOpts{ThroughCall: through}) {
+		if core.IsNilConst(o) {
+			continue
+		}
+		ld, ok := o.(*ssa.UnOp)
+		if !ok {
+			return false
+		}
+		ia, ok := ld.X.(*ssa.IndexAddr)
+		if !ok {
+			return false
+		}
+		rl, ok := ia.X.(*ssa.UnOp)
+		if !ok {
+			return false
+		}
+		fa, ok := rl.X.(*ssa.FieldAddr)
+		if !ok || core.FieldAddrRef(fa).String() != "router.rules" {
+			return false
+		}
+		n++
+	}
+	return n > 0
+}
+
+// ruleOf: the rule value x in an expression x.<field> (a load of a field of a *rule).
+func ruleOf(v ssa.Value, field string) ssa.Value {
+	ld, ok := v.(*ssa.UnOp)
+	if !ok {
+		return nil
+	}
+	fa, ok := ld.X.(*ssa.FieldAddr)
+	if !ok || core.FieldAddrRef(fa).String() != "rule."+field {
+		return nil
+	}
+	return fa.X
 }
 
 func r10b(c *core.Ctx) {
@@ -162,8 +259,13 @@ func r10b(c *core.Ctx) {
 			ok := false
 			for _, cnd := range core.CondsAt(b) {
 				e := core.Expr(cnd.Cond)
-				if cnd.Val && (strings.HasSuffix(e, a.cond) || (a.key == "no-rule" && strings.HasSuffix(e, "== nil)") && strings.Contains(e, "phi(nil|r.rules["))) {
+				if cnd.Val && strings.HasSuffix(e, a.cond) {
 					ok = true
+				}
+				if a.key == "no-rule" {
+					if tv, trueIsNil, isNT := core.NilTest(cnd.Cond); isNT && cnd.Val == trueIsNil && isMatchedRule(c, tv) {
+						ok = true
+					}
 				}
 			}
 			if !ok {
@@ -223,12 +325,14 @@ func r10c(c *core.Ctx) {
 		n := core.CallName(call)
 		if strings.HasSuffix(n, "router).forward") {
 			e := core.Expr(call.Common().Args[2])
-			c.Check(strings.HasSuffix(e, ".upstream") && strings.Contains(e, "phi(nil|r.rules["), "forward-to-matched-upstream", call.Pos(), hr, "handleReq forwards to the matched rule's upstream", e)
+			ru := ruleOf(call.Common().Args[2], "upstream")
+			c.Check(ru != nil && isMatchedRule(c, ru), "forward-to-matched-upstream", call.Pos(), hr, "handleReq forwards to the matched rule's upstream", e)
 			c.Check(core.Expr(call.Common().Args[3]) == "q", "forward-the-question", call.Pos(), hr, "the forwarded question is the (lower-cased) query question", core.Expr(call.Common().Args[3]))
 		}
 		if core.StaticCallee(call) == pf {
 			e := core.Expr(call.Common().Args[3])
-			c.Check(strings.HasSuffix(e, ".upstream") && strings.Contains(e, "phi(nil|r.rules["), "prefetch-to-matched-upstream", call.Pos(), hr, "a refresh is started for the matched rule's upstream", e)
+			ru := ruleOf(call.Common().Args[3], "upstream")
+			c.Check(ru != nil && isMatchedRule(c, ru), "prefetch-to-matched-upstream", call.Pos(), hr, "a refresh is started for the matched rule's upstream", e)
 		}
 	}
 	// asyncSingleFlightPrefetch passes its u to doPrefetch; doPrefetch forwards to its u
